@@ -29,7 +29,7 @@ import lib
 import sched
 
 # ------------------------------------------------------------------------------------------------ programs
-# op syntax shared with the driver:  inc:o:a get:o lab:k linc:k:a rem:k clr reg:c unreg:c col rcol:c rrcol:c  (+ oracle-only obs:s:a obs:h:a info:v state:k sti:v gti)
+# op syntax shared with the driver:  inc:o:a get:o lab:k linc:k:a rem:k clr reg:c unreg:c col rcol:c rrcol:c  (+ oracle-only obs:s:a obs:h:a info:v state:k sti:v gti rcx:c rct stn)
 # rcol:c  = registry.collect() over a collector that registers/unregisters x<c> and does a restricted lookup and a
 #           get_target_info from inside its collect();  rrcol:c = registry.restricted_registry(['e']).collect() over the same collector
 QUICK_PROGRAMS = [
@@ -52,6 +52,10 @@ QUICK_PROGRAMS = [
     ('h', 'obs:h:1|obs:h:2|col', 1, False),
     ('in', 'info:a,state:1|info:b,state:2|col', 1, False),   # Info.info / Enum.state against a collect
     ('t', 'sti:a,gti|sti:b|col', 1, False),                  # set_target_info / get_target_info against a collect
+    # restricted collects by NAME against unregister / set_target_info(None) of what claims the name; world x: x1, x2 are
+    # registered, world g: target info is set, both in the set-up phase
+    ('cx', 'rcx:1|unreg:1', 1, False),
+    ('g', 'rct|stn', 1, False),
 ]
 THOROUGH_PROGRAMS = [
     ('c', 'inc:0:1|inc:0:2|col', 2, True),
@@ -73,6 +77,7 @@ THOROUGH_PROGRAMS = [
     ('p', 'linc:0:1,linc:0:2|col,col|col', 2, True),
     ('sh', 'obs:s:2,obs:h:1|col|col,col', 2, False),
     ('int', 'info:a,sti:x|state:1,sti:y,gti|col,col', 2, False),
+    ('cxg', 'rcx:1,rct|unreg:1,stn|rcx:2,unreg:2', 2, False),
 ]
 BACKENDS = ('mutex', 'mmap')
 
@@ -175,7 +180,7 @@ class World:
             values.ValueClass = values.MutexValue
         self.values_mod = values
         self.tls = threading.local()
-        self.R = CollectorRegistry()
+        self.R = CollectorRegistry(target_info={'k': 't0'}) if 'g' in flags else CollectorRegistry()
         self.c = Counter('c', 'h', registry=self.R) if 'c' in flags else None
         self.p = Counter('p', 'h', ['l'], registry=self.R) if ('p' in flags or 'q' in flags) else None
         self.s = Summary('s', 'h', registry=self.R) if 's' in flags else None
@@ -183,6 +188,9 @@ class World:
         self.I = Info('inf', 'h', registry=self.R) if 'i' in flags else None
         self.N = Enum('en', 'h', states=['a', 'b', 'c'], registry=self.R) if 'n' in flags else None
         self.X = {i: XCollector(i) for i in range(1, 5)}
+        if 'x' in flags:                 # set-up phase: the named collectors are registered before the threads start
+            self.R.register(self.X[1])
+            self.R.register(self.X[2])
         self.E = None
         if 'e' in flags:
             self.E = ReentrantCollector(self)
@@ -332,6 +340,16 @@ def make_thunk(w, tid, ops, log):
             return [], None
         if k == 'sti':
             w.R.set_target_info({'k': f[1]})
+            return [], None
+        if k == 'rcx':           # restricted collect by name of the custom collector x<c>
+            fams = list(w.R.restricted_registry(['x' + f[1]]).collect())
+            bad = [fm.name for fm in fams if fm.name != 'x' + f[1]]
+            return [], {'restricted': ('x' + f[1], [fm.name for fm in fams], bad)}
+        if k == 'rct':           # restricted collect of the target info
+            fams = list(w.R.restricted_registry(['target_info']).collect())
+            return [], {'restricted': ('target', [fm.name for fm in fams], [fm.name for fm in fams if fm.name != 'target'])}
+        if k == 'stn':
+            w.R.set_target_info(None)
             return [], None
         if k == 'gti':
             return [], {'gti': w.R.get_target_info()}
@@ -592,9 +610,14 @@ def identity_and_collect_oracle(ops, dyn, obs):
                             series[0], dict(series[1]), va, vb))
     # Info / Enum / target info: what is read is something that was written (or the initial state); exactly one state is set
     infos = {f[1] for f in ops if f[0] == 'info'}
-    tis = {f[1] for f in ops if f[0] == 'sti'}
+    tis = {f[1] for f in ops if f[0] == 'sti'} | {'t0'}
     for tid, idx, op, toks, extra, t0, t1 in obs['log']:
         if extra is None:
+            continue
+        if 'restricted' in extra:
+            want, got, bad = extra['restricted']
+            if bad or len(got) > 1:
+                return ('C02:phantom-value', 'restricted collect of %s returned families %r' % (want, got))
             continue
         if 'gti' in extra:
             g = extra['gti']
